@@ -29,6 +29,11 @@ CLAIMS = {
    note="Platform fixed to LP64 (performArithmeticConversions has no platform parameter); L/u/U character constants use the built-in fallback types; bitwise/logical operators record no type and are outside the property's list; hex floats are not lexed by the front end.",
    technique="Lean 4 proof by complete case analysis + induction (unbounded values/spellings); exhaustive differential correspondence with the real type checker",
    ref="DESIGN.md §4 C13"),
+ "C14": dict(
+   text="Lean 4 theorems (Props/C14.lean) over a generic tree model (ordered holders: token / possibly-null child / node list with delimiters; any shape and depth) with firstToken/lastToken/findValidToken, the list versions and the visitor protocol transcribed: firstToken = head and lastToken = last of the subtree's token sequence unconditionally (mutual structural induction), hence a node that owns a token never reports an invalid extent; under the sibling-order clause (Ordered, inherited by subtrees) the extent of every node is the min/max of its subtree and encloses the extents of all descendants; a full traversal calls preVisit on exactly the pre-order sequence of nodes (each node once, nothing else). Tie: structural dump of real trees (psyh tree) fed to the model: every node of ~1,200 (thorough 21,000) generated valid, token-mutated and byte-mutated programs in all four disambiguation modes and stand-alone categories is compared (first, last, visit count); Ordered is evaluated on every real tree; oracle = min/max of subtree tokens and one visit per node.",
+   note="The kind-specific downcast clause is not checked per class; list delimiters are not part of a node's extent; below an unresolved ambiguity node only the first alternative counts for the order clause (exempt by the property); Ordered for parser output is monitored, not proved.",
+   technique="Lean 4 proof by mutual structural induction over a generic tree model + differential correspondence on dumps of real trees",
+   ref="DESIGN.md §4 C14"),
  "C16": dict(
    text="Lean 4 theorems (Props/C16.lean): the front end's position computation (vector of line starts recorded by the lexer, upper_bound binary search, column subtraction, line-marker re-basing) equals a left-to-right scan of the text for EVERY text and offset (induction over the text, generalised over base offset and accumulated line/column); on the scan: k line breaks inserted at a line boundary before a token add exactly k to its line and keep its column, k blanks inserted before it on its line add exactly k to its column, text after the token is irrelevant, the line distance between a marker and a later token does not depend on the text before the marker; the same laws restated for computePosition and SyntaxToken::location. Tie: hand model <-> real computePosition / newDiagnostic / location() on every token and diagnostic of ~1,200 (thorough 20,000) generated texts incl. excerpts; oracle: the relational laws evaluated on the implementation itself (4 transformed variants per text).",
    note="UTF-8 decoding of yyinput_CORE (bytes -> code units) is modelled for the driver but the theorems are stated on code-unit sequences; markers must stand alone on their line in generated texts; Qt-Creator expansion records are not covered; excerpt/caret construction is modelled and compared, its law is checked on the implementation, not proved.",
